@@ -37,6 +37,16 @@ pub fn shards(tier: &str) -> Vec<String> {
             }
         }
     }
+    // operations on handles that were created under another order and lived through a reordering
+    for k in ["bdd", "bcdd", "zbdd"] {
+        for o1 in model::perms(3) {
+            for o2 in model::perms(3) {
+                if o1 != o2 {
+                    v.push(format!("{k}:{}:t1:re{}", model::order_str(&o1), model::order_str(&o2)));
+                }
+            }
+        }
+    }
     if tier == "thorough" {
         for k in ["bdd", "bcdd", "zbdd"] {
             for o in ["0123", "3210", "2031"] {
@@ -55,6 +65,16 @@ pub fn run(ctx: &mut Ctx) {
     let order = model::parse_order(parts[1]);
     let tc = ThreadCfg::parse(parts[2]);
     let n4 = parts.get(3).map(|s| s.to_string());
+    if let Some(o2) = n4.as_deref().and_then(|p| p.strip_prefix("re")) {
+        let o2 = model::parse_order(o2);
+        match parts[0] {
+            "bdd" => run_reord::<Bdd>(ctx, &order, &o2, tc),
+            "bcdd" => run_reord::<Bcdd>(ctx, &order, &o2, tc),
+            "zbdd" => run_reord::<Zbdd>(ctx, &order, &o2, tc),
+            _ => panic!("bad shard"),
+        }
+        return;
+    }
     match (parts[0], n4) {
         ("bdd", None) => run_k::<Bdd>(ctx, &order, tc),
         ("bcdd", None) => run_k::<Bcdd>(ctx, &order, tc),
@@ -239,6 +259,29 @@ fn run_k<K: BoolKind>(ctx: &mut Ctx, order: &[u32], tc: ThreadCfg) {
         ctx.sample(|| case::<K>(n, &order, tc, "eval", &[0x96, 5], 0, "-"));
     });
 
+    // eval with argument lists that mention variables several times, in any order: the last value counts
+    ctx.group("evalargs", |ctx| {
+        let (_mref, fns) = all_functions::<K>(n, &order, 1024, tc);
+        let maxlen = if ctx.thorough() { 6 } else { 5 };
+        for (seq, a) in arg_lists(n, maxlen) {
+            for (t, f) in fns.iter().enumerate() {
+                let got = f.eval(seq.iter().copied());
+                ctx.count("evaluations", 1);
+                if t != 0 && t as Tab != full {
+                    ctx.count("nontrivial", 1);
+                }
+                if got != model::bit(t as Tab, a) {
+                    ctx.viol(
+                        attrs(&[("kind", K::NAME), ("op", "eval_args"), ("class", "wrong_value")]),
+                        case::<K>(n, &order, tc, "eval_args", &[t as Tab, a as Tab], model::bit(t as Tab, a) as Tab, &format!("{seq:?} -> {got}")),
+                        &format!("{} order {ostr}: eval of {t:#x} with arguments {seq:?} (last value counts: assignment {a:#b}) = {got}", K::NAME),
+                    );
+                }
+            }
+        }
+        ctx.sample(|| case::<K>(n, &order, tc, "eval_args", &[0x96, 5], 0, "[(0,false),(2,true),(1,false),(0,true)]"));
+    });
+
     ctx.group("not", |ctx| {
         let (_mref, fns) = all_functions::<K>(n, &order, 1024, tc);
         for (t, f) in fns.iter().enumerate() {
@@ -363,5 +406,98 @@ fn run_n4<K: BoolKind>(ctx: &mut Ctx, order: &[u32], tc: ThreadCfg, part: &str) 
                 });
             }
         }
+    });
+}
+
+/// All argument lists of length n..=maxlen over the pairs (variable, value) that mention every one
+/// of the n variables at least once, with the total assignment they denote (last value counts).
+pub fn arg_lists(n: u32, maxlen: usize) -> Vec<(Vec<(u32, bool)>, u32)> {
+    let syms = 2 * n as usize;
+    let mut out = vec![];
+    for len in n as usize..=maxlen {
+        let mut idx = vec![0usize; len];
+        'outer: loop {
+            let seq: Vec<(u32, bool)> = idx.iter().map(|&i| ((i / 2) as u32, i % 2 == 1)).collect();
+            let mut seen = 0u32;
+            let mut a = 0u32;
+            for &(v, b) in &seq {
+                seen |= 1 << v;
+                a = (a & !(1 << v)) | ((b as u32) << v);
+            }
+            if seen == (1 << n) - 1 {
+                out.push((seq, a));
+            }
+            for p in (0..len).rev() {
+                idx[p] += 1;
+                if idx[p] < syms {
+                    continue 'outer;
+                }
+                idx[p] = 0;
+            }
+            break;
+        }
+    }
+    out
+}
+
+/// All functions are built under `o1`, the manager is reordered to `o2` while every handle is alive,
+/// then constants, variables, negation, the binary connectives and ite are checked on the old handles.
+fn run_reord<K: BoolKind>(ctx: &mut Ctx, o1: &[u32], o2: &[u32], tc: ThreadCfg) {
+    let n = 3u32;
+    let full = model::full(n);
+    let order = o2.to_vec();
+    let tabs: Vec<Tab> = if ctx.thorough() { (0..256).collect() } else { model::subset3() };
+    let label = format!("reorder {}>{}", model::order_str(o1), model::order_str(o2));
+    ctx.group(&label, |ctx| {
+        let (mref, fns) = all_functions::<K>(n, o1, 1024, tc);
+        K::set_order(&mref, o2);
+        for (t, f) in fns.iter().enumerate() {
+            ctx.count("evaluations", 1);
+            match K::table(f) {
+                Ok(tt) if tt == t as Tab => {}
+                other => ctx.viol(
+                    attrs(&[("kind", K::NAME), ("op", "reorder_keep"), ("class", "wrong_value")]),
+                    case::<K>(n, &order, tc, "reorder_keep", &[t as Tab], t as Tab, &format!("{other:x?}")),
+                    &format!("{} {label}: handle of {t:#x} reads back as {other:x?} after the reordering", K::NAME),
+                ),
+            }
+            for a in 0..(1u32 << n) {
+                ctx.count("evaluations", 1);
+                if f.eval((0..n).map(|v| (v, (a >> v) & 1 == 1))) != model::bit(t as Tab, a) {
+                    ctx.viol(
+                        attrs(&[("kind", K::NAME), ("op", "eval"), ("class", "wrong_value"), ("after", "reorder")]),
+                        case::<K>(n, &order, tc, "eval", &[t as Tab, a as Tab], model::bit(t as Tab, a) as Tab, "-"),
+                        &format!("{} {label}: eval of {t:#x} under {a:#b} wrong after the reordering", K::NAME),
+                    );
+                }
+            }
+        }
+        mref.with_manager_shared(|m| {
+            check_result::<K>(ctx, n, &order, tc, "f", &[], 0, Ok(K::F::f(m)));
+            check_result::<K>(ctx, n, &order, tc, "t", &[], full, Ok(K::F::t(m)));
+            for v in 0..n {
+                check_result::<K>(ctx, n, &order, tc, "var", &[v as Tab], model::var_tab(v, n), K::F::var(m, v));
+                check_result::<K>(ctx, n, &order, tc, "not_var", &[v as Tab], model::not(model::var_tab(v, n), n), K::F::not_var(m, v));
+            }
+        });
+        for (t, f) in fns.iter().enumerate() {
+            check_result::<K>(ctx, n, &order, tc, "not", &[t as Tab], model::not(t as Tab, n), f.not());
+        }
+        for op in BINOPS {
+            for &a in &tabs {
+                for &b in &tabs {
+                    check_result::<K>(ctx, n, &order, tc, op.name(), &[a, b], op.apply(a, b, n), apply_bin(op, &fns[a as usize], &fns[b as usize]));
+                }
+            }
+        }
+        let small: Vec<Tab> = tabs.iter().copied().step_by(if ctx.thorough() { 4 } else { 3 }).collect();
+        for &a in &small {
+            for &b in &small {
+                for &c in &small {
+                    check_result::<K>(ctx, n, &order, tc, "ite", &[a, b, c], model::ite(a, b, c, n), fns[a as usize].ite(&fns[b as usize], &fns[c as usize]));
+                }
+            }
+        }
+        ctx.sample(|| case::<K>(n, &order, tc, "and", &[0xe8, 0x96], 0x80, &label));
     });
 }
